@@ -80,6 +80,13 @@ CLAIMS.update({
             "contract-based deductive verification (pyvc+z3): frame obligations on an effect log, call-site forwarding obligations", SYNC_NOTE),
 })
 
+CLAIMS.update({
+    "C07": ("other", "_add_prefix / _root_keys proved per filter entry over z3 strings (a key gets the default sp. prefix iff it names no namespace; every operand of $and/$or/$not is reached), "
+            "with counter-models replayed as concrete keys; JobsCursor len / membership / indexing proved to describe the one id list obtained from _find_job_ids with the cursor's own filter. "
+            "Spelling equivalences over whole queries, command-line token casting and groupby are bounded run-time contracts (known finding F6: groupby with dotted keys).",
+            "DESIGN 4/C07", "contract-based deductive verification (pyvc+z3 incl. string theory); bounded contract checking for the string front ends and groupby", BASE_TRUST),
+})
+
 NOT_YET = "not yet under contract in this round of the build (see DESIGN.md section 8 for the order); no check is registered, nothing is claimed"
 
 NA = {}
